@@ -72,8 +72,10 @@ def _blank():
     return {"on": frozenset(), "fg": None, "bg": None}
 
 
-def sgr_fold(state, params):
-    """Apply one SGR control function (list of numeric parameters; empty = [0])."""
+def sgr_fold(state, params, off_single=False):
+    """Apply one SGR control function (list of numeric parameters; empty = [0]).
+    `off_single=True` is NOT the standard: 24 / 25 then leave the double underline / rapid blink on (used only to
+    recognise that known deviation of rich's decoder)."""
     on, fg, bg = set(state["on"]), state["fg"], state["bg"]
     ps = list(params) or [0]
     i = 0
@@ -81,6 +83,8 @@ def sgr_fold(state, params):
            21: "underline2", 51: "frame", 52: "encircle", 53: "overline"}
     OFF = {22: ("bold", "dim"), 23: ("italic",), 24: ("underline", "underline2"), 25: ("blink", "blink2"), 27: ("reverse",),
            28: ("conceal",), 29: ("strike",), 54: ("frame", "encircle"), 55: ("overline",)}
+    if off_single:
+        OFF[24], OFF[25] = ("underline",), ("blink",)
     while i < len(ps):
         p = ps[i]
         i += 1
@@ -129,16 +133,26 @@ def cell_meaning(cell):
     return (ch, st["on"], st["fg"], st["bg"], link)
 
 
-def stream_meaning(s):
+def stream_meaning(s, deviation=None):
     """Per character meaning of an escape-coded string without cursor movement: list of rows, each a list of
     (char, on, fg, bg, link).  Uses the independent tokenizer of harness/term.py; SGR state is folded here
-    (a 0 anywhere in a parameter list resets)."""
+    (a 0 anywhere in a parameter list resets).
+    `deviation` (None = the standard) names ONE known deviation of rich's decoder to apply instead, so that a failure can
+    be recognised as exactly that deviation: "empty" (omitted parameters dropped), "reset-link" (SGR 0 drops the link),
+    "off-single" (24 / 25 keep the double variants)."""
+    import re
+
     import term
 
     rows = [[]]
     st = _blank()
     link = None
     unknown = 0
+    if deviation == "empty":
+        def drop(m):
+            ps = [p for p in m.group(1).split(";") if p != ""]
+            return "\x1b[" + ";".join(ps) + "m" if ps else ""
+        s = re.sub(r"\x1b\[([0-9;]*)m", drop, s)
     for t in term.tokenize(s):
         k = t[0]
         if k == "T":
@@ -147,7 +161,9 @@ def stream_meaning(s):
         elif k == "LF":
             rows.append([])
         elif k == "SGR":
-            st = sgr_fold(st, t[1])
+            st = sgr_fold(st, t[1], off_single=deviation == "off-single")
+            if deviation == "reset-link" and 0 in (list(t[1]) or [0]):
+                link = None
         elif k == "OSC8":
             link = t[2] or None
         else:
